@@ -419,6 +419,17 @@ def native(seed=0):
                         bad.append(dict(case, what=f"edge_mesh.{nm} differs after the round trip"))
         dev = tdgl.Device("d", layer=layer, film=tdgl.Polygon("film", points=box(3, 2)), length_units="um")
         dev.make_mesh(max_edge_length=0.5, smooth=3)
+        # a solution that only lives in memory (output_file=None), written with to_hdf5 and read back: equal, dynamics included
+        sol_m = tdgl.solve(dev, tdgl.SolverOptions(solve_time=0.3, save_every=10, adaptive=False, dt_init=1e-2, output_file=None), applied_vector_potential=0.2)
+        pm = os.path.join(td, "mem.h5")
+        sol_m.to_hdf5(pm)
+        back_m = tdgl.Solution.from_hdf5(pm)
+        n += 1
+        if back_m.dynamics is None or sol_m.dynamics is None or len(back_m.dynamics.dt) != len(sol_m.dynamics.dt) or not np.array_equal(back_m.dynamics.dt, sol_m.dynamics.dt):
+            bad.append(dict(what="per-step records of an in-memory solution are lost by to_hdf5 / from_hdf5", written=len(sol_m.dynamics.dt) if sol_m.dynamics is not None else None,
+                            read_back=len(back_m.dynamics.dt) if back_m.dynamics is not None else None))
+        elif not (back_m == sol_m) or not np.array_equal(back_m.times, sol_m.times):
+            bad.append(dict(what="in-memory solution differs from its copy read back from disk"))
         for tp in (None, 0.0):
             opts = tdgl.SolverOptions(solve_time=0.5, save_every=10, terminal_psi=tp, adaptive=False, dt_init=1e-2, pause_on_interrupt=False, progress_interval=None,
                                       output_file=os.path.join(td, f"s{tp}.h5"))
